@@ -23,6 +23,7 @@
 #include <map>
 #include <memory>
 #include <random>
+#include <limits>
 #include <cstdlib>
 #include <cstdio>
 #include <cmath>
@@ -206,6 +207,23 @@ template <class T> struct Mk<UnparametricZRing<T> > { static UnparametricZRing<T
 template <class E> static std::string rawshow(const E& e) { return IO<E>::show(e); }
 template <> std::string rawshow<bool>(const bool& e) { return e ? "1" : "0"; }
 
+// destinations are never fresh: before every draw the element is preset, in rotation, to -1, the largest and the smallest value of
+// its storage type (non-canonical for almost every modulus), zero, a non-integral float ... ; a draw must not depend on it
+template <class E, class En = void> struct Junk {
+    template <class Ring> static void set(const Ring& F, E& r, int i) { if (i % 2) F.assign(r, F.zero); else F.assign(r, F.mOne); }
+};
+template <class E> struct Junk<E, typename std::enable_if<std::is_integral<E>::value && !std::is_same<E, bool>::value>::type> {
+    template <class Ring> static void set(const Ring& F, E& r, int i) {
+        switch (i % 4) { case 0: F.assign(r, F.mOne); break; case 1: r = std::numeric_limits<E>::max(); break;
+                         case 2: r = std::numeric_limits<E>::min(); break; default: F.assign(r, F.zero); break; }
+    }
+};
+template <class E> struct Junk<E, typename std::enable_if<std::is_floating_point<E>::value>::type> {
+    template <class Ring> static void set(const Ring& F, E& r, int i) {
+        switch (i % 4) { case 0: F.assign(r, F.mOne); break; case 1: r = (E) 1e30; break; case 2: r = (E) -7.5; break; default: F.assign(r, F.zero); break; }
+    }
+};
+
 template <class Ring> struct RingRun {
     typedef typename Ring::Element E;
     static std::string once(const Ring& F, const std::string& op, uint64_t seed, int n, const std::string& sz) {
@@ -214,7 +232,7 @@ template <class Ring> struct RingRun {
         if (op == "random" || op == "random_sz" || op == "nzrandom" || op == "nzrandom_sz") {
             GivRandom g(seed);
             for (int i = 0; i < n; ++i) {
-                F.assign(r, F.mOne);
+                Junk<E>::set(F, r, i);
                 if (op == "random") F.random(g, r);
                 else if (op == "nzrandom") F.nonzerorandom(g, r);
                 else if (!Sized<Ring>::has) return "UNSUPPORTED";
@@ -233,7 +251,7 @@ template <class Ring> struct RingRun {
             std::unique_ptr<RI> cp;
             for (int i = 0; i < n; ++i) {
                 if (op == "itercopy" && i == n / 2) cp.reset(new RI(it));      // copy in mid-stream: both continue alike
-                F.assign(r, F.mOne);
+                Junk<E>::set(F, r, i + 1);
                 switch (i % 4) {
                 case 0: it.random(r); break;
                 case 1: it(r); break;
@@ -250,7 +268,7 @@ template <class Ring> struct RingRun {
             RI it(F, seed, size);
             GeneralRingNonZeroRandIter<Ring, RI> nz(it);
             for (int i = 0; i < n; ++i) {
-                F.assign(r, F.zero);
+                Junk<E>::set(F, r, i + 3);
                 switch (i % 3) {
                 case 0: nz.random(r); break;
                 case 1: nz(r); break;
@@ -275,45 +293,101 @@ template <class Ring> struct RingRun {
 };
 
 // polynomials over a ring
+//   the destination is NOT fresh: preset 0 = empty, 1 = d+5 coefficients (-1), 2 = one coefficient, 3 = exactly d+1 coefficients (-1),
+//   4 = 3d+40 coefficients alternating 0 / -1 (a "polynomial" that is not even normalised)
 template <class Ring> struct PolyRun {
     typedef Poly1Dom<Ring, Dense> PD;
     typedef typename PD::Element P;
-    static std::string once(const Ring& F, const std::string& form, uint64_t seed, int64_t d) {
-        PD D(F, Indeter("X"));
-        GivRandom g(seed);
-        P r, b;
-        if (form == "deg") D.random(g, r, Degree(d));
-        else if (form == "deg0") D.random(g, r);
-        else if (form == "size") D.random(g, r, (uint64_t) (d + 1));
-        else if (form == "like") { b.resize((size_t) d + 1); D.random(g, r, b); }
-        else if (form == "nzdeg") D.nonzerorandom(g, r, Degree(d));
-        else if (form == "nzdeg0") D.nonzerorandom(g, r);
-        else if (form == "nzsize") D.nonzerorandom(g, r, (uint64_t) (d + 1));
-        else if (form == "nzlike") { b.resize((size_t) d + 1); D.nonzerorandom(g, r, b); }
-        else return "UNKNOWN-FORM";
-        std::ostringstream o;
+    static void preset(const Ring& F, P& r, int64_t d, int how) {
+        size_t n = how == 1 ? (size_t) d + 5 : how == 2 ? 1 : how == 3 ? (size_t) d + 1 : how == 4 ? 3 * (size_t) d + 40 : 0;
+        r.resize(n);
+        for (size_t i = 0; i < n; ++i) { if (how == 4 && i % 2 == 0) F.assign(r[i], F.zero); else F.assign(r[i], F.mOne); }
+    }
+    static void show(std::ostream& o, const PD& D, const Ring& F, const P& r) {
         Degree dd; D.degree(dd, r);
         o << dd.value() << " " << r.size() << " ;";
         for (size_t i = 0; i < r.size(); ++i)
             o << " " << rawshow<typename Ring::Element>(r[i]) << ":" << Val<Ring>::show(F, r[i]) << (F.isZero(r[i]) ? "z" : "");
+    }
+    static bool draw(const PD& D, GivRandom& g, P& r, char form, int64_t d) {
+        P b;
+        switch (form) {
+        case 'D': { P& q = D.random(g, r, Degree(d)); if (&q != &r) abort(); } break;
+        case 'Z': D.random(g, r); break;
+        case 'S': D.random(g, r, (uint64_t) (d + 1)); break;
+        case 'L': b.resize((size_t) d + 1); D.random(g, r, b); break;
+        case 'd': D.nonzerorandom(g, r, Degree(d)); break;
+        case 'z': D.nonzerorandom(g, r); break;
+        case 's': D.nonzerorandom(g, r, (uint64_t) (d + 1)); break;
+        case 'l': b.resize((size_t) d + 1); D.nonzerorandom(g, r, b); break;
+        default: return false;
+        }
+        return true;
+    }
+    static std::string once(const Ring& F, const std::string& form, uint64_t seed, int64_t d, int how) {
+        PD D(F, Indeter("X"));
+        GivRandom g(seed);
+        P r;
+        preset(F, r, d, how);
+        char f = form == "deg" ? 'D' : form == "deg0" ? 'Z' : form == "size" ? 'S' : form == "like" ? 'L' : form == "nzdeg" ? 'd' : form == "nzdeg0" ? 'z'
+               : form == "nzsize" ? 's' : form == "nzlike" ? 'l' : '?';
+        if (!draw(D, g, r, f, d)) return "UNKNOWN-FORM";
+        std::ostringstream o;
+        show(o, D, F, r);
         o << " | " << g.seed();
         return o.str();
     }
-    static std::string go(const Args& a) {     // a = p form seed d
+    static std::string go(const Args& a) {     // a = p form seed d [preset]
         if (a.size() < 4) return "BAD-LINE";
         static std::unique_ptr<Ring> cur; static std::string curp;
         if (!cur || curp != a[0]) { cur.reset(Mk<Ring>::make(a[0])); curp = a[0]; }
-        std::string s1 = once(*cur, a[1], pu64(a[2]), pi64(a[3]));
-        std::string s2 = once(*cur, a[1], pu64(a[2]), pi64(a[3]));
+        int how = a.size() > 4 ? atoi(a[4].c_str()) : 0;
+        std::string s1 = once(*cur, a[1], pu64(a[2]), pi64(a[3]), how);
+        std::string s2 = once(*cur, a[1], pu64(a[2]), pi64(a[3]), how);
+        if (s1 != s2) return "NONREPRO " + s1 + " || " + s2;
+        return s1;
+    }
+    // polyseq <type> <p> <seed> <preset> <op>...    ONE destination polynomial reused for a sequence of draws, degrees going up and down.
+    //   op = form letter + degree:  D random(g,r,Degree) Z random(g,r) S random(g,r,size) L random(g,r,b)   d z s l: the nonzerorandom forms
+    //        I<d> : Poly1Dom::RandIter (GIV_randIter<Poly1Dom>) built with seed+3 and sampling size d+1, drawn into the same destination
+    //   prints "deg size ; coefficients" after EVERY step, separated by " / ", then "| state"
+    static std::string seq_once(const Ring& F, uint64_t seed, int how, const Args& ops) {
+        PD D(F, Indeter("X"));
+        GivRandom g(seed);
+        P r;
+        preset(F, r, 7, how);
+        std::ostringstream o;
+        for (size_t k = 0; k < ops.size(); ++k) {
+            char f = ops[k][0];
+            int64_t d = ops[k].size() > 1 ? pi64(ops[k].substr(1)) : 0;
+            if (f == 'I') {
+                typedef typename PD::RandIter PRI;
+                PRI it(D, (seed + 3) ? seed + 3 : 3, (typename PRI::Residu_t) (d + 1));
+                if (k % 2) it.random(r); else it(r);
+            }
+            else if (!draw(D, g, r, f, d)) return "UNKNOWN-OP";
+            if (k) o << " / ";
+            show(o, D, F, r);
+        }
+        o << " | " << g.seed();
+        return o.str();
+    }
+    static std::string seq(const Args& a) {     // a = p seed preset ops...
+        if (a.size() < 4) return "BAD-LINE";
+        static std::unique_ptr<Ring> cur; static std::string curp;
+        if (!cur || curp != a[0]) { cur.reset(Mk<Ring>::make(a[0])); curp = a[0]; }
+        Args ops(a.begin() + 3, a.end());
+        std::string s1 = seq_once(*cur, pu64(a[1]), atoi(a[2].c_str()), ops);
+        std::string s2 = seq_once(*cur, pu64(a[1]), atoi(a[2].c_str()), ops);
         if (s1 != s2) return "NONREPRO " + s1 + " || " + s2;
         return s1;
     }
 };
 
 typedef std::string (*Fn)(const Args&);
-static std::map<std::string, Fn> rings, polys, rurings;
+static std::map<std::string, Fn> rings, polys, polyseqs, rurings;
 #define REG(name, ...) rings[name] = &RingRun<__VA_ARGS__ >::go; ringseqs[name] = &RingSeq<__VA_ARGS__ >::go
-#define REGP(name, ...) polys[name] = &PolyRun<__VA_ARGS__ >::go
+#define REGP(name, ...) polys[name] = &PolyRun<__VA_ARGS__ >::go; polyseqs[name] = &PolyRun<__VA_ARGS__ >::seq
 
 // ---------------------------------------------------------------- iterators as objects with state: operation sequences
 // riiseq <U> <E> <seed> <samplesize|-> <op>...   ops: b<k> setBitsize(k) | + operator++ | * operator* | d randomInteger() | r random(a)
@@ -377,7 +451,7 @@ template <class Ring> struct RingSeq {
         E r; F.init(r);
         for (size_t k = 0; k < ops.size(); ++k) {
             char op = ops[k];
-            F.assign(r, F.mOne);
+            Junk<E>::set(F, r, (int) k + 1);
             if (op == 'r') it->random(r);
             else if (op == 'c') (*it)(r);
             else if (op == 'v') r = (*it)();
@@ -441,13 +515,18 @@ static std::string ext_once(uint64_t p, uint64_t e, const std::string& op, uint6
     GivRandom g(seed);
     GIV_ExtensionrandIter<Ext, Integer> it(F, Integer(s), Integer(seed));
     GIV_ExtensionrandIter<Ext, Integer> cp(it);
+    // ONE destination for all n draws, preset to more coefficients than any draw asks for; the sized forms ask for
+    // s, 1, s, s+1, s, 1, ... coefficients in turn (sizes going down and up on the same element)
+    Ext::Element r((size_t) e + 4, F.base_field().mOne);
     for (int i = 0; i < n; ++i) {
-        Ext::Element r;
+        int64_t si = (i % 2 == 0) ? s : ((i % 4 == 1) ? 1 : s + 1);
         if (op == "random") F.random(g, r);
-        else if (op == "random_s") F.random(g, r, (int64_t) s);
+        else if (op == "random_s") F.random(g, r, (int64_t) si);
         else if (op == "nzrandom") F.nonzerorandom(g, r);
-        else if (op == "nzrandom_s") F.nonzerorandom(g, r, (int64_t) s);
-        else if (op == "iter") { if (i % 2) it(r); else it.random(r); Ext::Element c; cp.random(c); if (c != r) o << " COPY-DIFFERS"; }
+        else if (op == "nzrandom_s") F.nonzerorandom(g, r, (int64_t) si);
+        else if (op == "random_b") { Ext::Element b((size_t) si, F.base_field().one); F.random(g, r, b); }
+        else if (op == "nzrandom_b") { Ext::Element b((size_t) si, F.base_field().one); F.nonzerorandom(g, r, b); }
+        else if (op == "iter") { if (i % 2) it(r); else it.random(r); Ext::Element c((size_t) (i % 3) * e, F.base_field().mOne); cp.random(c); if (c != r) o << " COPY-DIFFERS"; }
         else return "UNKNOWN-OP";
         o << " [";
         for (size_t j = 0; j < r.size(); ++j) {
@@ -495,11 +574,16 @@ struct ExtCtx { uint64_t p, e; std::string op; uint64_t seed; int n; int64_t s; 
 static std::string ext_f(void* c) { ExtCtx* x = (ExtCtx*) c; return ext_once(x->p, x->e, x->op, x->seed, x->n, x->s); }
 
 // ---------------------------------------------------------------- Part C: Integer range constructions
+// destinations are never fresh: preset 0 = -77, 1 = 2^200+12345 (four limbs), 2 = -(2^130+7), 3 = 0
+static int g_preset = 0;
+static Integer preset_int(int k) {
+    switch (k % 4) { case 1: return (Integer(1) << 200) + 12345; case 2: return -((Integer(1) << 130) + 7); case 3: return Integer(0); default: return Integer(-77); }
+}
 // variant: t = <true> template form, f = <false> template form, d = the non-template (default) form
 template <class T> static std::string int_T(const std::string& op, char v, const Args& a) {
     // a[0] = the T-typed argument
     T m = IO<T>::parse(a[0]);
-    Integer r(-77);
+    Integer r(preset_int(g_preset));
     if (op == "lt_Tv") { r = (v == 't') ? Integer::random_lessthan<true, T>(m) : (v == 'f') ? Integer::random_lessthan<false, T>(m) : Integer::random_lessthan<T>(m); }
     else if (op == "ex_T") { if (v == 't') Integer::random_exact<true, T>(r, m); else if (v == 'f') Integer::random_exact<false, T>(r, m); else Integer::random_exact<T>(r, m); }
     else if (op == "ex_Tv") { r = (v == 't') ? Integer::random_exact<true, T>(m) : (v == 'f') ? Integer::random_exact<false, T>(m) : Integer::random_exact<T>(m); }
@@ -515,7 +599,7 @@ template <class T> static std::string int_T(const std::string& op, char v, const
 // Integer-typed T needs separate code: random_exact<..,T> and random_between<R> static_cast<uint64_t>(Integer)
 static std::string int_TI(const std::string& op, char v, const Args& a) {
     Integer m(a[0].c_str());
-    Integer r(-77);
+    Integer r(preset_int(g_preset));
     if (op == "rnd_T") { if (v == 't') Integer::random<true, Integer>(r, m); else if (v == 'f') Integer::random<false, Integer>(r, m); else Integer::random<Integer>(r, m); }
     else if (op == "nz_T") { if (v == 't') Integer::nonzerorandom<true, Integer>(r, m); else if (v == 'f') Integer::nonzerorandom<false, Integer>(r, m); else Integer::nonzerorandom<Integer>(r, m); }
     else if (op == "nz_Tv") { r = (v == 't') ? Integer::nonzerorandom<true, Integer>(m) : (v == 'f') ? Integer::nonzerorandom<false, Integer>(m) : Integer::nonzerorandom<Integer>(m); }
@@ -528,7 +612,8 @@ static std::string int_once(const std::string& op, const std::string& var, uint6
     char sd = var.size() > 1 ? var[1] : 'u';     // seeding form: u = seeding(uint64_t), I = seeding(const Integer&)
     g_trace.clear();
     if (sd == 'I') Integer::seeding(Integer(seed)); else Integer::seeding(seed);
-    Integer r(-77);                 // destinations start from a recognisable value
+    g_preset = var.size() > 2 ? var[2] - '0' : 0;
+    Integer r(preset_int(g_preset));                 // destinations start from a recognisable value
     std::string res;
     if (op == "lt_I") { Integer m(a[0].c_str()); if (v == 't') Integer::random_lessthan<true>(r, m); else if (v == 'f') Integer::random_lessthan<false>(r, m); else Integer::random_lessthan(r, m); }
     else if (op == "lt_2e") { uint64_t n = pu64(a[0]); if (v == 't') Integer::random_lessthan_2exp<true>(r, n); else if (v == 'f') Integer::random_lessthan_2exp<false>(r, n); else Integer::random_lessthan_2exp(r, n); }
@@ -575,7 +660,7 @@ template <bool U, bool E> static std::string rii_once(uint64_t seed, const std::
     std::ostringstream o;
     o << it->getBitsize() << " " << S(**it);         // the constructor has drawn once
     for (int i = 0; i < n; ++i) {
-        Integer a(-77);
+        Integer a(preset_int(i));
         switch (i % 6) {
         case 0: ++(*it); a = **it; break;
         case 1: it->random(a); break;
@@ -588,18 +673,27 @@ template <bool U, bool E> static std::string rii_once(uint64_t seed, const std::
     }
     return o.str() + " ; " + trace_str();
 }
-static std::string mii_once(uint64_t seed, const std::string& size, const std::string& p, int n) {
+// mii <seed> <size> <p> <n> [ctor nz]   ctor: 3 = RandIter(F, seed, size), 2 = RandIter(F, seed), 1 = RandIter(F)   nz = 1: the NonZeroRandIter forms too
+static std::string mii_once(uint64_t seed, const std::string& size, const std::string& p, int n, int ctor, int nzok) {
+    typedef Modular<Integer> MI;
     g_trace.clear();
-    Modular<Integer> F(Integer(p.c_str()));
-    ModularRandIter<Modular<Integer> > it(F, (size_t) seed, Integer(size.c_str()));
+    MI F(Integer(p.c_str()));
+    std::unique_ptr<MI::RandIter> itp;
+    if (ctor == 1) itp.reset(new MI::RandIter(F)); else if (ctor == 2) itp.reset(new MI::RandIter(F, (size_t) seed)); else itp.reset(new MI::RandIter(F, (size_t) seed, Integer(size.c_str())));
+    MI::RandIter& it = *itp;
+    MI::NonZeroRandIter nz(it);
+    MI::NonZeroRandIter nz2(nz);
     std::ostringstream o;
     for (int i = 0; i < n; ++i) {
-        Integer a(-77);
-        switch (i % 4) {
+        Integer a(preset_int(i + 1));
+        switch (i % (nzok ? 7 : 4)) {
         case 0: it.random(a); break;
-        case 1: it(a); break;
+        case 1: { Integer& q = it(a); if (&q != &a) return "BAD-REF"; } break;
         case 2: a = it(); break;
-        default: a = it.random(); break;
+        case 3: a = it.random(); break;
+        case 4: nz.random(a); break;
+        case 5: nz2(a); break;
+        default: a = nz(); break;
         }
         o << (i ? " " : "") << S(a);
     }
@@ -612,7 +706,8 @@ template <size_t K> static std::string ru_once(uint64_t seed, int n) {
     std::mt19937_64 twin; twin.seed(seed);
     std::ostringstream o, l;
     for (int i = 0; i < n; ++i) {
-        RecInt::ruint<K> a; RecInt::ruint<K>& q = RecInt::rand(a); if (&q != &a) return "BAD-REF";
+        RecInt::ruint<K> a; if (i % 2 == 0) RecInt::fill_with_1(a);        // destination not fresh: all ones
+        RecInt::ruint<K>& q = RecInt::rand(a); if (&q != &a) return "BAD-REF";
         o << (i ? " " : "") << IO<RecInt::ruint<K> >::show(a);
         for (size_t j = 0; j < (size_t(1) << (K - 6)); ++j) l << " " << (unsigned long long) twin();
     }
@@ -631,7 +726,7 @@ template <class Ring> struct RuRun {
             GivRandom g(seed);
             std::ostringstream o;
             for (int i = 0; i < n; ++i) {
-                E r; F.init(r);
+                E r; F.init(r); if (i % 2 == 0) RecInt::fill_with_1(r);    // destination not fresh and not canonical (>= p)
                 if (a[1] == "random") F.random(g, r); else if (a[1] == "nzrandom") F.nonzerorandom(g, r);
                 else if (a[1] == "iter") { typename Ring::RandIter it(F, seed); it.random(r); }
                 else return "UNKNOWN-OP";
@@ -658,7 +753,7 @@ template <size_t K, size_t MG> static std::string rm_once(const std::string& ps,
     std::mt19937_64 twin; twin.seed(seed);
     std::ostringstream o, l;
     for (int i = 0; i < n; ++i) {
-        RM a;
+        RM a; if (i % 3 != 2) RecInt::fill_with_1(a.Value);          // destination not fresh and not reduced
         if (i % 2) a.random(); else RecInt::rand(a);
         Integer v; { RecInt::ruint<K> u = RecInt::get_ruint(a); v = Integer(u); }
         o << (i ? " " : "") << IO<RecInt::ruint<K> >::show(a.Value) << ":" << S(v);
@@ -671,7 +766,8 @@ template <size_t K> static std::string ri_once(uint64_t seed, int n) {
     std::mt19937_64 twin; twin.seed(seed);
     std::ostringstream o, l;
     for (int i = 0; i < n; ++i) {
-        RecInt::rint<K> a; RecInt::rand(a);
+        RecInt::rint<K> a; if (i % 2 == 0) RecInt::fill_with_1(a.Value);
+        RecInt::rand(a);
         o << (i ? " " : "") << IO<RecInt::ruint<K> >::show(a.Value);
         for (size_t j = 0; j < (size_t(1) << (K - 6)); ++j) l << " " << (unsigned long long) twin();
     }
@@ -689,7 +785,7 @@ static std::string rm_f(void* c) {
 // ---------------------------------------------------------------- main loop with a per-case time limit
 static sigjmp_buf jb;
 static void on_alarm(int) { siglongjmp(jb, 1); }
-static void arm(long ms) { struct itimerval t; t.it_interval.tv_sec = 0; t.it_interval.tv_usec = 0; t.it_value.tv_sec = ms / 1000; t.it_value.tv_usec = (ms % 1000) * 1000; setitimer(ITIMER_REAL, &t, 0); }
+static void arm(long ms) { struct itimerval t; t.it_interval.tv_sec = 0; t.it_interval.tv_usec = 0; t.it_value.tv_sec = ms / 1000; t.it_value.tv_usec = (ms % 1000) * 1000; setitimer(ITIMER_PROF, &t, 0); }
 
 static std::string twice(std::string (*f)(void*), void* ctx) {
     std::string s1 = f(ctx), s2 = f(ctx);
@@ -706,8 +802,8 @@ static std::string rii_f(void* c) {
     if (x->e) return rii_once<false, true>(x->seed, x->ss, x->n);
     return rii_once<false, false>(x->seed, x->ss, x->n);
 }
-struct MiiCtx { uint64_t seed; std::string size, p; int n; };
-static std::string mii_f(void* c) { MiiCtx* x = (MiiCtx*) c; return mii_once(x->seed, x->size, x->p, x->n); }
+struct MiiCtx { uint64_t seed; std::string size, p; int n; int ctor, nz; };
+static std::string mii_f(void* c) { MiiCtx* x = (MiiCtx*) c; return mii_once(x->seed, x->size, x->p, x->n, x->ctor, x->nz); }
 struct RuCtx { int K; uint64_t seed; int n; };
 static std::string ru_f(void* c) {
     RuCtx* x = (RuCtx*) c;
@@ -730,9 +826,9 @@ static std::string dispatch(const std::string& kind, const Args& a) {
         std::string s2 = lcg(a[0], seed, n);
         return s1 == s2 ? s1 : "NONREPRO " + s1 + " || " + s2;
     }
-    if (kind == "ring" || kind == "poly" || kind == "modru") {
+    if (kind == "ring" || kind == "poly" || kind == "modru" || kind == "polyseq") {
         if (a.size() < 2) return "BAD-LINE";
-        std::map<std::string, Fn>& tb = (kind == "ring") ? rings : (kind == "poly") ? polys : rurings;
+        std::map<std::string, Fn>& tb = (kind == "ring") ? rings : (kind == "poly") ? polys : (kind == "polyseq") ? polyseqs : rurings;
         std::map<std::string, Fn>::iterator it = tb.find(a[0]);
         if (it == tb.end()) return "UNKNOWN-RING";
         return it->second(Args(a.begin() + 1, a.end()));
@@ -781,7 +877,8 @@ static std::string dispatch(const std::string& kind, const Args& a) {
     if (kind == "mii") {
         if (a.size() < 4) return "BAD-LINE";
         MiiCtx c; c.seed = pu64(a[0]); c.size = a[1]; c.p = a[2]; c.n = atoi(a[3].c_str());
-        return c.seed ? twice(mii_f, &c) : mii_f(&c);
+        c.ctor = a.size() > 4 ? atoi(a[4].c_str()) : 3; c.nz = a.size() > 5 ? atoi(a[5].c_str()) : 0;
+        return (c.seed && c.ctor != 1) ? twice(mii_f, &c) : mii_f(&c);
     }
     if (kind == "rm") {     // rm <K> <mg: 0 = rmint<K,MGI>, 1 = rmint<K,MGA>, 2 = rint<K>> <p> <seed> <n>
         if (a.size() < 5) return "BAD-LINE";
@@ -818,7 +915,7 @@ int main(int argc, char** argv) {
     REGU("ru6_7", Modular<RecInt::ruint<6>, RecInt::ruint<7> >); REGU("ru7_8", Modular<RecInt::ruint<7>, RecInt::ruint<8> >);
     REGU("mgru6", Montgomery<RecInt::ruint<6> >); REGU("mgru7", Montgomery<RecInt::ruint<7> >); REGU("mgru8", Montgomery<RecInt::ruint<8> >);
 
-    struct sigaction sa; sa.sa_handler = on_alarm; sigemptyset(&sa.sa_mask); sa.sa_flags = 0; sigaction(SIGALRM, &sa, 0);
+    struct sigaction sa; sa.sa_handler = on_alarm; sigemptyset(&sa.sa_mask); sa.sa_flags = 0; sigaction(SIGPROF, &sa, 0);
     std::string line;
     while (std::getline(std::cin, line)) {
         std::istringstream is(line);
